@@ -131,7 +131,7 @@ Qed.
 
 (* declared annotations (forward references at the leaves) resolve into the supported grammar, to the class they name *)
 Lemma resolve_wf p ns t : wf_ann t = true -> leaf_ok p t = true -> locals_in ns t = true ->
-  exists rt, resolve p ns t = Ok rt /\ wf_ty rt = true /\ forall d, about rt d = about t d.
+  exists rt, resolve p ns (fun n => n) t = Ok rt /\ wf_ty rt = true /\ forall d, about rt d = about t d.
 Proof.
   unfold locals_in. intros W L Hl.
   destruct t as [b|c'|e|a|k a|a|n'|a|a|k v|o| |n'|pp u1 u2]; try discriminate W;
@@ -147,7 +147,7 @@ Proof.
 Qed.
 
 Theorem classify_declared : forall p ns t d df, wf_ann t = true -> leaf_ok p t = true -> locals_in ns t = true ->
-  exists rt, resolve p ns t = Ok rt /\
+  exists rt, resolve p ns (fun n => n) t = Ok rt /\
     kinds_of {| resolved_type := rt; has_default := d; has_default_factory := df |} = Ok (spec_kind rt) /\
     forall c, about rt c = about t c.
 Proof.
